@@ -355,7 +355,9 @@ func reifyGetField(
 		// None primitive types always get initialized even if it doesn't implement the
 		// Initializer interface, because nested types might implement the Initializer interface.
 		if value == nil {
-			value = &cfgNil{cfgPrimitive{cfg.ctx, cfg.metadata}}
+			// absent setting: an empty value at the place the setting would have, so that
+			// errors raised while applying defaults name the nested field
+			value = &cfgNil{cfgPrimitive{context{parent: cfgSub{cfg}, field: name}, cfg.metadata}}
 		}
 	}
 
